@@ -41,6 +41,16 @@ def dag_workload(n, idx, halt=None):
 W.dag_workload = dag_workload
 
 
+def in_order_filter(st, a):
+    """actions_filter: deliveries (with or without an injected fault / worker death) only of the oldest ready
+    message; every non-delivery action stays enabled."""
+    name = a[0].split(":", 1)[0]
+    if not (name == "d" or name.startswith("df") or name in ("dm", "da", "dp")):
+        return True
+    ready = [m["id"] for m in st.view.queue if m["elig"] == "ready" and m["attempts"] < m["maxa"]]
+    return bool(ready) and a[1] == min(ready)
+
+
 def reference_outcomes(w, workload, all_orders=False, **kw):
     """Admissible outcome set: FIFO outcome for confluent workloads, every
     outcome reachable by reordering alone (no fault) for racy ones."""
